@@ -432,6 +432,28 @@ func compOf(k int) enc.Component {
 	return enc.NewStringComponent(enc.TypeGenericNameComponent, genericComps[k])
 }
 
+// makeInterest encodes an Interest for the name given by universe ids (+ optional implicit digest component). A name that
+// ends with component 9 is an Interest with ApplicationParameters "p": MakeInterest appends the parameters digest itself.
+func makeInterest(name []int, dig *enc.Component, cfg *ndn.InterestConfig) *ndn.EncodedInterest {
+	fn := mkName(name)
+	var appParam enc.Wire
+	if len(name) > 0 && name[len(name)-1] == 9 && dig == nil {
+		fn = mkName(name[:len(name)-1])
+		appParam = enc.Wire{[]byte("p")}
+	}
+	if dig != nil {
+		fn = append(fn, *dig)
+	}
+	enci, err := spec.Spec{}.MakeInterest(fn, cfg, appParam, nil)
+	if err != nil {
+		panic(fmt.Sprintf("MakeInterest %v: %v", name, err))
+	}
+	if appParam != nil && !enci.FinalName.Equal(mkName(name)) {
+		panic("unexpected final name " + enci.FinalName.String())
+	}
+	return enci
+}
+
 var paramsCompOnce sync.Once
 var paramsCompVal enc.Component
 
@@ -789,14 +811,14 @@ func runCase(t *testing.T, ops []gop, cfg string) []string {
 					w.face.reply = wire
 				} else if g.replyK == 'n' && (len(g.name) > 0 || g.digK != '-') {
 					fn := mkName(g.name)
+					var digc *enc.Component
 					if g.digK != '-' {
-						fn = append(fn, digestComp(g.digK, g.digNm, g.digCid, g.digLen))
+						dc := digestComp(g.digK, g.digNm, g.digCid, g.digLen)
+						digc = &dc
+						fn = append(fn, dc)
 					}
 					lt := 4 * time.Second
-					enci, err := spec.Spec{}.MakeInterest(fn, &ndn.InterestConfig{Lifetime: &lt}, nil, nil)
-					if err != nil {
-						panic(err)
-					}
+					enci := makeInterest(g.name, digc, &ndn.InterestConfig{Lifetime: &lt})
 					pkt := &spec.Packet{LpPacket: &spec.LpPacket{Nack: &spec.NetworkNack{Reason: uint64(g.replyCid)}, Fragment: enci.Wire}}
 					e := spec.PacketEncoder{}
 					e.Init(pkt)
@@ -865,14 +887,14 @@ func runCase(t *testing.T, ops []gop, cfg string) []string {
 				}
 			case "nack":
 				fn := mkName(g.name)
+				var digc *enc.Component
 				if g.digK != '-' {
-					fn = append(fn, digestComp(g.digK, g.digNm, g.digCid, g.digLen))
+					dc := digestComp(g.digK, g.digNm, g.digCid, g.digLen)
+					digc = &dc
+					fn = append(fn, dc)
 				}
 				lt := 4 * time.Second
-				enci, err := spec.Spec{}.MakeInterest(fn, &ndn.InterestConfig{Lifetime: &lt}, nil, nil)
-				if err != nil {
-					panic(err)
-				}
+				enci := makeInterest(g.name, digc, &ndn.InterestConfig{Lifetime: &lt})
 				pkt := &spec.Packet{LpPacket: &spec.LpPacket{Nack: &spec.NetworkNack{Reason: uint64(g.reason)}, Fragment: enci.Wire}}
 				e := spec.PacketEncoder{}
 				e.Init(pkt)
@@ -912,10 +934,7 @@ func runCase(t *testing.T, ops []gop, cfg string) []string {
 					d := time.Duration(g.life) * time.Millisecond
 					cfg.Lifetime = &d
 				}
-				enci, err := spec.Spec{}.MakeInterest(mkName(g.name), cfg, nil, nil)
-				if err != nil {
-					panic(err)
-				}
+				enci := makeInterest(g.name, nil, cfg)
 				wire := enci.Wire.Join()
 				w.curIntWire = wire
 				if g.tok != "-" {
@@ -1053,6 +1072,15 @@ func (g *genr) name(alpha, maxDepth int) []int {
 		}
 	}
 	return n
+}
+
+// keepLastParams: a nacked Interest may end with the real parameters digest (9), nothing else of that kind
+func keepLastParams(n []int) []int {
+	r := stripParams(n)
+	if len(n) > 0 && n[len(n)-1] == 9 {
+		r = append(r, 9)
+	}
+	return r
 }
 
 func stripParams(n []int) []int {
@@ -1245,7 +1273,7 @@ func (g *genr) genCase() []gop {
 			}
 			ops = append(ops, o)
 		case x < 68:
-			o := gop{kind: "nack", name: related(), reason: g.pick([]int{50, 100, 150}), digK: '-'}
+			o := gop{kind: "nack", name: keepLastParams(related()), reason: g.pick([]int{50, 100, 150}), digK: '-'}
 			if len(o.name) == 0 {
 				o.name = []int{1}
 			}
@@ -1254,6 +1282,12 @@ func (g *genr) genCase() []gop {
 				o.digK, o.digNm, o.digCid = 'd', d.nm, d.cid
 			} else if g.r.Intn(10) == 0 {
 				o.digK, o.digCid = 'b', g.pick(bogusShapes)
+			}
+			if o.digK != '-' {
+				o.name = stripParams(o.name)
+				if len(o.name) == 0 {
+					o.name = []int{1}
+				}
 			}
 			ops = append(ops, o)
 		case x < 90 || !handlersOn:
@@ -1278,7 +1312,7 @@ func (g *genr) genCase() []gop {
 			case 2:
 				ops = append(ops, gop{kind: "detach", name: related()})
 			case 3:
-				o := gop{kind: "interest", name: related(), life: g.pick(lifetimes), tok: "-"}
+				o := gop{kind: "interest", name: keepLastParams(related()), life: g.pick(lifetimes), tok: "-"}
 				if len(o.name) == 0 {
 					o.name = []int{1}
 				}
